@@ -10,9 +10,16 @@ KW = {"default": {}, "quoted": {"quoted": True}, "platform_aware": {"platform_aw
 GRIDS = {}
 
 
+TRIM_BASE = [("b_host", nvar.B_HOST), ("b_path", ["", "/p/q", "/a b/é", "/a%2fb%20c"]), ("b_query", [0, 1, 3, 4]), ("b_frag", ["", "/home/inbox"])]
+
+
 def the_grid(tier):
+    """quick / 'deep': trimmed bases and the representative items; thorough: every base and every documented item"""
     if tier not in GRIDS:
-        GRIDS[tier] = grid.Grid("normalize-buckets", nvar.toggles(tier), free=nvar.BASE + OPTS)
+        if tier == "thorough":
+            GRIDS[tier] = grid.Grid("normalize-buckets", nvar.toggles("thorough"), free=nvar.BASE + OPTS)
+        else:
+            GRIDS[tier] = grid.Grid("normalize-buckets-" + tier, nvar.toggles("quick"), free=TRIM_BASE + OPTS)
     return GRIDS[tier]
 
 
@@ -123,7 +130,7 @@ def run(chk):
     g = the_grid(chk.tier)
     wg = the_grid("thorough")
     d = 2 if quick else 3
-    nb = len(nvar.B_HOST) * len(nvar.B_PATH) * len(nvar.B_QUERY)
+    nb = g.free_count // 3
     chk.rule.append(
         "E1 buckets: %d base URLs x every subset of <= %d toggles from the documented-irrelevant family (scheme / its absence, "
         "userinfo, www / www2 / m / mobile / amp subdomains incl. stacked, explicit default port, host case / punycode, trailing "
@@ -132,7 +139,13 @@ def run(chk):
         "control characters, dot segments) x {default, quoted, platform_aware}: normalize_url(variant) == normalize_url(base). Plus "
         "the redirect pre-step equation on C15's start grammar." % (nb, d, len(nvar.irrelevant_items(chk.tier)))
     )
-    failures, tags = grid.run(chk, g, d, evaluate, shrink=(wg.wit, simplify, fails_fn), target=30000)
+    if quick:
+        failures, tags = grid.run(chk, g, 2, evaluate, shrink=(wg.wit, simplify, fails_fn), target=30000)
+    else:
+        failures, tags = grid.run(chk, g, 2, evaluate, shrink=(wg.wit, simplify, fails_fn), target=30000)
+        f_deep, t_deep = grid.run(chk, the_grid("deep"), 3, evaluate, shrink=(wg.wit, simplify, fails_fn), target=30000)
+        for k_, v_ in t_deep.items():
+            tags[k_] = tags.get(k_, 0) + v_
     n1 = chk.cov["states"]
     chk.clause(PROP + ".bucket", checked=n1, nontrivial=tags.get("nontrivial", 0))
     f2, t2 = grid.run(chk, c15.GRID, 3 if quick else 4, evaluate_redirect,
